@@ -92,7 +92,7 @@ def c02_stages(tier):
     st = [AT('compose-q', 'MC_AffTree_compose_q.cfg'), AT('compose-dim', 'MC_AffTree_compose_dim.cfg'),
           AT('compose-k4', 'MC_AffTree_compose_k4.cfg'), AT('compose-g2', 'MC_AffTree_compose_g2.cfg'),
           # terminals with a constant component that lies exactly on a threshold of the right operand (constant pulled-back predicates)
-          AT('compose-z', 'MC_AffTree_compose_z.cfg'), DR('compose')]
+          AT('compose-z', 'MC_AffTree_compose_z.cfg'), AT('compose-d3', 'MC_AffTree_compose_d3.cfg'), DR('compose')]
     if tier == 'thorough':
         st += [AT('compose-t', 'MC_AffTree_compose_t.cfg'), AT('compose-dimt', 'MC_AffTree_compose_dimt.cfg'),
                AT('compose-k4t', 'MC_AffTree_compose_k4t.cfg')]
@@ -150,7 +150,8 @@ def prune_stages(tier):
           # K = 4: two-row decisions below the root (cached witnesses must satisfy every row), children under labels no input takes
           HS('prune-k4', 'MC_AffTree_prune_k4.cfg'), DR('eliminate')]
     if tier == 'thorough':
-        st += [HS('prune-t', 'MC_AffTree_prune_t.cfg'), HS('pruneg-t', 'MC_AffTree_pruneg_t.cfg')]
+        # prune-in3: trees over R^3 (three input coordinates)
+        st += [HS('prune-t', 'MC_AffTree_prune_t.cfg'), HS('pruneg-t', 'MC_AffTree_pruneg_t.cfg'), HS('prune-in3', 'MC_AffTree_prune_in3.cfg')]
     return st
 
 
